@@ -151,6 +151,27 @@ def build(rng, tier):
         for r in range(len(g.p["rels"])):
             if r != g.t: inp.setdefault(r, [])
         cases.append(engcheck.Case(pid, pid + "_0", engcheck.std_history(pid + "_0", pid, inp), {"inp": inp, "kind": "corpus-" + (fid or ""), "g": g}))
+    # duplicate-sensitive readers: count / sum aggregates over the tagged BINARY relation in a later stratum, with the second (first) element column bound and the other
+    # free - `cnt(y, n) <-- node(y), agg n = count() in tr(_, y)`.  A plain relation closed by explicit rules holds every tuple once, so must the provider's index look-ups
+    # (each member of a class exactly once).  Inputs put reflexive tuples r(x, x) FIRST in the first batch (an element whose first mention is reflexive)
+    for k in range(3 if quick else 8):
+        col = lambda a, b: [a, b] if k % 2 == 0 else [b, a]
+        ap = {"rels": [{"arity": 2, "ds": "trrel_uf"}, {"arity": 2}, {"arity": 1}, {"arity": 2}, {"arity": 2}],
+              "rules": [{"heads": [(0, [("var", 0), ("var", 1)])], "body": [("cl", 1, [("v", 0), ("v", 1)], [])]},
+                        {"heads": [(3, [("var", 0), ("var", 21)])], "body": [("cl", 2, [("v", 0)], []), ("agg", [21], "count", [], 0, col("_", ("k", ("var", 0))))]},
+                        {"heads": [(4, [("var", 0), ("var", 21)])], "body": [("cl", 2, [("v", 0)], []), ("agg", [21], "sum", [20], 0, col(("b", 20), ("k", ("var", 0))))]}]}
+        pid = f"tagg{k}"
+        g = CorpusProg(ap); g.info = analyze(g.p, g.t)
+        progs[pid] = eng.twin(ap); mods.append((pid, rs_module_ds(pid, ap))); build.info[pid] = g
+        for j in range(6 if quick else 20):
+            r2 = rng.fork(f"{pid}i{j}")
+            n = r2.range(3, 6)
+            refl = [(x, x) for x in r2.shuffle(list(range(n)))[: r2.range(1, 3)]]
+            rest = [(r2.below(n), r2.below(n)) for _ in range(r2.range(1, 5))]
+            e = list(dict.fromkeys(refl + rest if j % 3 else r2.shuffle(refl + rest)))
+            inp = {1: e, 2: [(x,) for x in range(n + 1)], 3: [], 4: []}
+            inst = f"{pid}_{j}"
+            cases.append(engcheck.Case(pid, inst, engcheck.std_history(inst, pid, inp), {"inp": inp, "kind": "aggregate-over-tagged", "g": g, "twin_model": True}))
     for rep in range(reps):
         for kind, mode, av in combos:
             pid = f"t{kind[0]}{mode.replace('_', '')}{'a' if av else ''}{rep}"
@@ -363,6 +384,8 @@ def check(tier, replay=None):
                 hi = mout[off + per[1][0]: off + per[1][1]]
                 inband = band_b(g, io, lo, hi)
                 model_eff = "\n".join(io) if inband else "\n".join(lo)
+                # (the provider-level engine model `dsx` has no aggregation items: for those programs the model side is the Lean engine on the explicit-closure twin)
+                if c.meta.get("twin_model"): inband, model_eff, lo, hi = False, "\n".join(twin_out), [], []
                 wt = oracle_b(c, tw, twin_out)
                 if wt is not None:
                     d.model_vs_spec.append({"input": text, "model": "\n".join(twin_out), "why": "Lean engine model on the explicit-closure twin: " + wt})
